@@ -746,6 +746,7 @@ fn parse_air(label: &str) -> Option<TAir> {
         ["pv", r] => TAir::Pv { rows: num(r, "r")? },
         ["addrl", r] => TAir::AddRl { rows: num(r, "r")? },
         ["per", r] => TAir::Per { rows: num(r, "r")? },
+        ["subrl", r] => TAir::SubRl { rows: num(r, "r")? },
         _ => return None,
     };
     (air.label() == label).then_some(air)
